@@ -332,7 +332,7 @@ def t_wiring(E):
     E.prove("C29.forward_mode.stages_the_function_on_the_primals", E.And(I.to_u(staged_on[0][0]) == src.t, E.eq(staged_on[0][1], [x])))
     E.prove("C29.forward_mode.interprets_the_staged_jaxpr_with_the_given_key_on_the_dual_arguments", E.And(
         E.eq(ev_calls[0][0], k), I.to_u(ev_calls[0][1]) == jaxpr_marker.t, I.to_u(ev_calls[0][2]) == lits.t,
-        len(ev_calls[0][3]) == 1 and E.eq(ev_calls[0][3][0].fields["primal"], x) and E.eq(ev_calls[0][3][0].fields["tangent"], dx)))
+        E.And(E.eq(ev_calls[0][3][0].fields["primal"], x), E.eq(ev_calls[0][3][0].fields["tangent"], dx)) if len(ev_calls[0][3]) == 1 else False))
     out = konts[0]
     E.prove("C29.forward_mode.continues_with_the_interpreter_dual_result_and_returns_what_the_continuation_returns", E.And(
         is_obj(out, "Dual"),
